@@ -34,25 +34,27 @@ REQUIRED = [
     'borda_score_at', 'borda_rejects', 'dowdall_score_at', 'geometric_score_at', 'modifiedBorda_score_at',
     'fixedTop_score_at', 'sequence_score_at', 'positional_borda_rejects', 'condorcet_sum', 'condorcet_additive',
     'condorcet_additive_merged', 'rankedToCondorcet_additive_nobottom', 'rankedToCondorcet_additive',
-    'condorcet_single', 'pairwise_le_total', 'rankedToCondorcet_pairwise_le_total', 'condorcet_irreflexive',
-    'condorcet_is_dict', 'pairwise_le_total_needs_nodup', 'scoreToRanked_eq_accum', 'scoreToRanked_sum',
-    'scoreToRanked_additive', 'scoreToRanked_additive_merged', 'scoreToRanked_additive_none', 'scoreToRanked_image',
-    'scoreToRanked_augment', 'scoreToRanked_weight_conserved', 'scoreToRanked_is_dict', 'scoreToApproval_eq_accum',
-    'scoreToApproval_sum', 'scoreToApproval_additive', 'scoreToApproval_additive_merged', 'scoreToApproval_image',
-    'scoreToApproval_weight_conserved', 'scoreToApproval_is_dict', 'invertedSimple_image', 'invertedSimple_toFun',
-    'invertedSimple_additive_merged', 'invertedApproval_sum', 'invertedApproval_image', 'awf_mergeDict',
-    'invertedApproval_additive_merged', 'invertedApproval_weight_conserved', 'voteTotals_sum', 'voteTotals_additive',
-    'voteTotals_additive_merged', 'voteTotals_weight_conserved', 'voteTotals_is_dict', 'constituencyTotals_sum',
+    'condorcet_single', 'above_iff_earlier_place', 'pairwise_le_total', 'pairwise_le_total_merged',
+    'rankedToCondorcet_pairwise_le_total', 'condorcet_irreflexive', 'condorcet_is_dict',
+    'pairwise_le_total_needs_nodup', 'scoreToRanked_eq_accum', 'scoreToRanked_sum', 'scoreToRanked_additive',
+    'scoreToRanked_additive_merged', 'scoreToRanked_additive_none', 'scoreToRanked_image', 'scoreToRanked_augment',
+    'scoreToRanked_top_additive', 'mem_allScoredCandidates', 'scoreToRanked_weight_conserved',
+    'scoreToRanked_is_dict', 'scoreToApproval_eq_accum', 'scoreToApproval_sum', 'scoreToApproval_additive',
+    'scoreToApproval_additive_merged', 'scoreToApproval_image', 'scoreToApproval_weight_conserved',
+    'scoreToApproval_is_dict', 'invertedSimple_image', 'invertedSimple_toFun', 'invertedSimple_additive_merged',
+    'invertedApproval_sum', 'invertedApproval_image', 'awf_mergeDict', 'invertedApproval_additive_merged',
+    'invertedApproval_weight_conserved', 'voteTotals_sum', 'voteTotals_additive', 'voteTotals_additive_merged',
+    'voteTotals_weight_conserved', 'voteTotals_is_dict', 'constituencyTotals_sum',
     'constituencyTotals_additive_merged', 'subsetted_eq_accum', 'subsetted_sum', 'subsetted_additive',
     'subsetted_additive_merged', 'subsetted_weight_conserved', 'subsetted_is_dict', 'subsetSimple_image',
     'subsetApproval_image', 'subsetRanked_image', 'subsetScore_image', 'subsetted_weight_conserved_ranked',
     'subsetted_weight_conserved_approval', 'subsetted_weight_conserved_score', 'mapKey_image',
     'individualToParty_sum', 'individualToParty_rejects', 'individualToParty_additive_merged', 'groupByParty_image',
-    'groupByParty_additive_disjoint', 'rounded_image', 'rounded_value', 'rounded_additive_disjoint',
-    'rounded_not_additive_witness', 'chain_nil', 'chain_cons', 'chain_append', 'conv_chain', 'approvalUnsplit_sum',
-    'chain_ranked_approval_simple', 'chain_ranked_approval_simple_additive', 'chain_two_additive',
-    'chain_score_approval_simple_additive', 'subsettedNested_image', 'invertedApproval_awf',
-    'invertedApproval_top_sum',
+    'groupByParty_additive_disjoint', 'rounded_image', 'rounded_value', 'rounded_with_image', 'rounded_with_value',
+    'rounded_with_halfUp', 'rounded_additive_disjoint', 'rounded_not_additive_witness', 'chain_nil', 'chain_cons',
+    'chain_append', 'conv_chain', 'approvalUnsplit_sum', 'chain_ranked_approval_simple',
+    'chain_ranked_approval_simple_additive', 'chain_two_additive', 'chain_score_approval_simple_additive',
+    'subsettedNested_image', 'invertedApproval_awf', 'invertedApproval_top_sum', 'invertedApproval_top_additive',
 ]
 TRUSTED = ['Python set/dict iteration order of converter outputs is not observable: outputs compare as maps, '
            'frozensets as sorted id lists']
@@ -64,23 +66,32 @@ CONVERTERS = ['ApprovalToSimpleVotes', 'RankedToFirstPreference', 'RankedToFirst
               'VoteTotals', 'ConstituencyTotals', 'SubsettedVotes', 'RoundedVotes', 'Chain']
 SCORERS = ['Borda', 'Dowdall', 'Geometric', 'ModifiedBorda', 'FixedTop', 'SequenceBased']
 SUBSETTERS = ['simple', 'approval', 'ranked', 'score']
+ROUND_METHODS = ['ROUND_HALF_UP', 'ROUND_HALF_DOWN', 'ROUND_HALF_EVEN', 'ROUND_DOWN', 'ROUND_UP', 'ROUND_CEILING', 'ROUND_FLOOR',
+                 'ROUND_05UP']
 # converters of the property's quantifier that have no Lean model (the oracle still covers them)
-UNMODELLED = ['RoundedVotes with a round_method other than ROUND_HALF_UP', 'SubsettedVotes with depth > 1']
+UNMODELLED = ['SubsettedVotes with depth > 1']
 
 REQUIRED_COUNTERS = (['conv:' + c for c in CONVERTERS] + ['scorer:' + s for s in SCORERS]
                      + ['subsetter:' + s for s in SUBSETTERS]
                      + ['split', 'unsplit', 'condorcet_bottom', 'condorcet_nobottom', 'unscored_value',
                         'shared_rank', 'truncated', 'empty_ballot', 'overlap_AB', 'shared_image',
                         'fraction_weight', 'same_universe', 'rounded_disjoint', 'rounded_overlap',
-                        'borda_too_many_ranks', 'duplicate_candidate', 'util', 'decimal_weight'])
-RULE = ('2-5 candidates with multi-character names; ranked ballots with truncation, shared ranks (incl. one-element and empty '
+                        'borda_too_many_ranks', 'duplicate_candidate', 'util', 'decimal_weight']
+                     + ['round:' + m for m in ROUND_METHODS])
+RULE = ('2-5 candidates (5-8 in the `big` share) with multi-character names; ranked ballots with truncation, shared ranks (incl. one-element and empty '
         'sets), repeated candidates and the empty ballot; approval and score ballots incl. empty ones; weights from small integers, '
-        'zero, Fractions and (rarely) negatives; each profile of 1-7 ballots is split into A and B with ballots that occur in both '
+        'zero, Fractions and (rarely) negatives; each profile of 1-7 (big: 6-15) ballots is split into A and B with ballots that occur in both '
         'halves and distinct ballots that share an image; every converter of the quantifier with every rank scorer / subsetter / mode, '
         'and chains of two or three converters. Non-trivial = at least two ballots in A+B and a non-error result; distinct by request.')
-NOT_VERIFIED = ['set/dict iteration order of outputs (outputs compare as maps)',
+NOT_VERIFIED = ['set/dict iteration order of outputs (outputs compare as maps; frozensets are canonical sorted id lists)',
                 'Decimal division of RoundedVotes for Fractions is taken as exact (denominators in the generator are small)',
-                'Person/PoliticalParty objects are modelled by ids; the mapper reads one attribute'] + \
+                'Person/PoliticalParty objects are modelled by ids; the mapper reads one attribute',
+                'universe-dependent converters (positional/Borda, Condorcet with unranked_at_bottom, ScoreToRankedVotes with '
+                'unscored_value, InvertedApprovalVotes): additivity is proved over a fixed universe and, for the converter as called, '
+                'under the hypothesis that the halves name the same candidates',
+                'GroupVotesByParty and RoundedVotes are not additive as functions: proved per-key image and additivity across disjoint keys',
+                'Chain: composition law proved in general (SumOfImages.comp) and instantiated for two chains; other chains by correspondence',
+                'nested SubsettedVotes(depth=1): per-district image proved, additivity by correspondence/oracle only'] + \
                ['UNMODELLED: ' + u for u in UNMODELLED]
 EXHAUSTIVE = {'thorough': False}     # small-scope enumeration is added in the thorough tier, the random part stays
 
@@ -328,7 +339,8 @@ def build_conv(spec, ctx):
                'score': vv.ScoreSubsetter}[spec['subsetter']]()
         return _WithSubset(vc.SubsettedVotes(sub, depth=spec['depth']), [ctx.cand(i) for i in spec['subset']])
     if c == 'RoundedVotes':
-        return vc.RoundedVotes(spec['decimals'])
+        import decimal
+        return vc.RoundedVotes(spec['decimals'], getattr(decimal, spec.get('round_method', 'ROUND_HALF_UP')))
     if c == 'Chain':
         return vc.Chain([build_conv(s, ctx) for s in spec['cs']])
     raise ValueError(c)
@@ -566,10 +578,33 @@ def universe(kind, prof):
     return []
 
 
-def round_half_up(x, decimals):
+def ref_round(x, decimals, method='ROUND_HALF_UP'):
+    """the documented rounding modes of the decimal module, on exact fractions"""
+    import math
     s = x * 10 ** decimals
-    q = (abs(s) + Fraction(1, 2)).__floor__()
-    return Fraction(q if s >= 0 else -q, 10 ** decimals)
+    sign = 1 if s >= 0 else -1
+    a = abs(s)
+    lo = math.floor(a)              # magnitude rounded toward zero
+    frac = a - lo
+    if method == 'ROUND_DOWN':
+        q = lo
+    elif method == 'ROUND_UP':
+        q = lo + (1 if frac > 0 else 0)
+    elif method == 'ROUND_CEILING':
+        return Fraction(math.ceil(s), 10 ** decimals)
+    elif method == 'ROUND_FLOOR':
+        return Fraction(math.floor(s), 10 ** decimals)
+    elif method == 'ROUND_HALF_UP':
+        q = lo + (1 if frac >= Fraction(1, 2) else 0)
+    elif method == 'ROUND_HALF_DOWN':
+        q = lo + (1 if frac > Fraction(1, 2) else 0)
+    elif method == 'ROUND_HALF_EVEN':
+        q = lo + (1 if frac > Fraction(1, 2) or (frac == Fraction(1, 2) and lo % 2 == 1) else 0)
+    elif method == 'ROUND_05UP':
+        q = lo + (1 if frac > 0 and lo % 5 == 0 else 0)
+    else:
+        raise ValueError(method)
+    return Fraction(sign * q, 10 ** decimals)
 
 
 def ref_convert(spec, kind, prof):
@@ -594,7 +629,7 @@ def ref_convert(spec, kind, prof):
         S = set(spec['subset'])
         return 'nested', {d: {k: w for k, w in dv if k in S} for d, dv in prof}
     if c == 'RoundedVotes':
-        return kind, {k: round_half_up(w, spec['decimals']) for k, w in prof}
+        return kind, {k: ref_round(w, spec['decimals'], spec.get('round_method', 'ROUND_HALF_UP')) for k, w in prof}
     if c == 'GroupVotesByParty':
         out = {}
         for b, w in prof:
@@ -1111,7 +1146,8 @@ def rnd_spec(rng, name, m):
         return {'c': name, 'subsetter': k, 'subset': sub, 'depth': 0}, {'simple': 'simple', 'approval': 'approval',
                                                                          'ranked': 'ranked', 'score': 'score'}[k]
     if name == 'RoundedVotes':
-        return {'c': name, 'decimals': rng.choice([0, 1, 1, 2, 3])}, rng.choice(['simple', 'simple', 'approval', 'ranked'])
+        return {'c': name, 'decimals': rng.choice([0, 1, 1, 2, 3]),
+                'round_method': rng.choice(ROUND_METHODS + ['ROUND_HALF_UP'] * 4)}, rng.choice(['simple', 'simple', 'approval', 'ranked'])
     raise ValueError(name)
 
 
@@ -1181,8 +1217,8 @@ def rnd_nested(rng, m):
     return A, B
 
 
-def gen_case(rng, name=None, tags=()):
-    m = rng.randint(2, 5)
+def gen_case(rng, name=None, tags=(), big=False):
+    m = rng.randint(5, 8) if big else rng.randint(2, 5)
     name = name or rng.choice(CONVERTERS)
     if name == 'Chain':
         spec, kind = rnd_chain(rng, m)
@@ -1191,7 +1227,7 @@ def gen_case(rng, name=None, tags=()):
     if kind == 'nested':
         A, B = rnd_nested(rng, m)
         return finish(spec, kind, A, B, tags, dec=rng.random() < 0.3)
-    n = rng.randint(1, 6)
+    n = rng.randint(6, 14) if big else rng.randint(1, 6)
     ballots = rnd_ballots(rng, kind, m, n)
     split_frac = any(s['c'] == 'ApprovalToSimpleVotes' and s['split'] for s in _flat(spec))
     A, B = split(rng, ballots)
@@ -1208,6 +1244,19 @@ def gen_case(rng, name=None, tags=()):
     names = [s['c'] for s in _flat(spec)]
     if any(nm in UNIVERSE_DEPENDENT for nm in names) and rng.random() < 0.8:
         cover(rng, kind, A, B, m)
+    if 'RoundedVotes' in names and spec['c'] == 'RoundedVotes':
+        # counts that sit exactly on a rounding tie, just beside it, and negative ones
+        d = spec['decimals']
+        def tie(w):
+            r = rng.random()
+            base = Fraction(rng.randint(-12, 40), 10 ** d)
+            if r < 0.4:
+                return ns(base + Fraction(1, 2 * 10 ** d))
+            if r < 0.55:
+                return ns(base + Fraction(rng.choice([1, 2, 4]), 8 * 10 ** d))
+            return w
+        A = [[k, tie(w)] for k, w in A]
+        B = [[k, tie(w)] for k, w in B]
     if 'RoundedVotes' in names and rng.random() < 0.5:
         ka = {jkey(k) for k, _ in A}
         B = [e for e in B if jkey(e[0]) not in ka]
@@ -1267,6 +1316,10 @@ def directed(rng):
                  [[[0, 1], '2'], [[{'set': [0, 1]}], '1']], [[[1, 0], '3'], [[0, 1], '1']], ['directed'])
     yield finish({'c': 'RoundedVotes', 'decimals': 1}, 'simple', [[0, '5/4'], [1, '1/3']], [[2, '-5/4'], [3, '7']], ['directed'])
     yield finish({'c': 'RoundedVotes', 'decimals': 0}, 'simple', [[0, '1/2'], [1, '1/3']], [[0, '1/2'], [3, '7']], ['directed'])
+    for meth in ROUND_METHODS:
+        yield finish({'c': 'RoundedVotes', 'decimals': 1, 'round_method': meth}, 'simple',
+                     [[0, '5/4'], [1, '27/20'], [2, '-5/4'], [3, '-27/20'], [4, '1/20']],
+                     [[5, '21/20'], [6, '-21/20'], [7, '3/2'], [8, '149/100'], [9, '-151/100']], ['directed', 'round:' + meth])
     yield finish({'c': 'Chain', 'cs': [{'c': 'RankedToApprovalVotes'}, {'c': 'ApprovalToSimpleVotes', 'split': False}]}, 'ranked',
                  [[[0, 1], '2']], [[[1, 0], '3']], ['directed'])
     yield finish({'c': 'RankedToFirstPreference'}, 'ranked', [[[0, 1], '1/2'], [[1], '3']], [[[0, 2], '5/4'], [[0, 1], '1/4']],
@@ -1280,6 +1333,8 @@ def generate(rng, tier):
     N = 3500 if tier == 'quick' else 60000
     for _ in range(N):
         yield gen_case(rng)
+    for _ in range(60 if tier == 'quick' else 4000):
+        yield gen_case(rng, tags=['big'], big=True)
     for _ in range(40 if tier == 'quick' else 2000):
         m = rng.randint(2, 4)
         bs = []
@@ -1345,4 +1400,6 @@ LEVEL_TEXT = ('every converter of votelib.convert named in the property is model
               'the models are tied to /repo by a differential correspondence on A, B, A+B and single-ballot profiles plus an independent oracle.')
 LEVEL_NOTE = ('Trusted: Lean kernel + propext/Classical.choice/Quot.sound; translate.py for the rank-score lists; the correspondence harness '
               '(2-5 candidates, 1-7 ballots); frozensets and output dicts compared up to iteration order.')
-UNPROVED = []
+UNPROVED = ['firstN_flat_image: the key of RankedToFirstNPreferences is the approval set of the candidates at the first n places '
+            '(FALSE of the code when a shared rank is among them: firstN_flat_image_witness; proved otherwise: '
+            'firstN_flat_image_partial; known finding C13-firstn-nested-set)']
